@@ -416,7 +416,10 @@ def check_case_inner(case):
                     fail = ("diff: mode %s %s printed %r (= %s s) but second - "
                             "first is %s s" % (mode, shown, text, float(got),
                                                float(true)))
-                elif (true < 0) != text.startswith("-"):
+                elif (true < 0) != text.startswith("-") and not (
+                        frac and abs(true) <= M.US):
+                    # (with decimal fields a distance within the tolerance
+                    # has no sign determined by the mathematics)
                     fail = "diff_sign: %s printed %r for %s s" % (
                         shown, text, float(true))
             nontrivial = True
